@@ -396,7 +396,15 @@ func lateCode(c int) bool {
 
 func corpusOracle(c CorpusCase) *ev.Verdict {
 	a := sut.Observe(sut.Project{Root: c.Text})
-	if len(a.Escapes) > 0 || (a.Check != nil && !lateCode(a.Check.Code)) {
+	if len(a.Escapes) > 0 {
+		return nil
+	}
+	if a.Check != nil && !lateCode(a.Check.Code) {
+		// refused while it is being read: the re-layout may move the error, but it cannot make the text valid
+		b := sut.Observe(sut.Project{Root: transform(c.Text, c.Transform)})
+		if len(b.Escapes) == 0 && b.Check == nil && b.AST != "" && !strings.Contains(b.AST, `"TokenType":""`) {
+			return ev.V("corpus:"+c.Transform+":verdict", "the text %q is refused (%s) but its %s form is accepted", c.Text, a.Check, c.Transform)
+		}
 		return nil
 	}
 	if a.Check == nil && (a.AST == "" || strings.Contains(a.AST, `"TokenType":""`)) {
